@@ -75,7 +75,7 @@ def body(ctx):
             runs.append((mode, spec, scen.run(spec, mode), None))
     for a in B32:
         for b in (0, 0x80000000, 0xFFFFFFFF):
-            spec = dict(seed=1, maxdata=4096, rid='plus', frag='bytes1', ops=[dict(api='stat', path=('/s', '/é', '/файл')[(a + b) % 3], path_bytes=bool((a ^ b) & 1), st=[a, b, a ^ b])])
+            spec = dict(seed=1, maxdata=4096, rid='plus', frag='bytes1', ops=[dict(api='stat', path=('/s', '/é', '/файл', '/Cafe\u0301/o\u0302', '/\u212b\ufb01')[(a + b) % 5], path_bytes=bool((a ^ b) & 1), st=[a, b, a ^ b])])
             runs.append(('sync', spec, scen.run(spec, 'sync'), None))
             runs.append(('async', spec, scen.run(spec, 'async'), None))
     # field values whose bytes spell words of the protocol family (a mode that reads b'FAIL', a size that reads b'DONE', ...)
@@ -84,6 +84,14 @@ def body(ctx):
         st = [KW[a], KW[(a + 5) % len(KW)], KW[(a + 9) % len(KW)]]
         ents = [[(b'n%d' % j).hex(), KW[(a + j) % len(KW)], KW[(a + 2 * j + 1) % len(KW)], KW[(a + 3 * j + 2) % len(KW)]] for j in range(3)]
         spec = dict(seed=ctx.seed + a, maxdata=4096, rid='plus', frag=('whole', 'random')[a % 2], ops=[dict(api='stat', path='/kw', st=st), dict(api='list', path='/kwd', entries=ents, cuts='random')])
+        for mode in ('sync', 'async'):
+            runs.append((mode, spec, scen.run(spec, mode), None))
+    # replies whose packetisation contains WRITEs without payload
+    for k in range(4):
+        spec = dict(seed=ctx.seed + 60 + k, maxdata=4096, rid='plus', frag='whole',
+                    ops=[dict(api='stat', path='/e%d' % k, st=[k + 1, k + 2, k + 3], cuts='empties'),
+                         dict(api='list', path='/ed%d' % k, entries=[[b'n1'.hex(), 1, 2, 3], [b'n22'.hex(), 4, 5, 6], [b'n333'.hex(), 7, 8, 9]], cuts='empties'),
+                         dict(api='stat', path='/after', st=[9, 9, 9])])
         for mode in ('sync', 'async'):
             runs.append((mode, spec, scen.run(spec, mode), None))
     # a listing that arrives as one WRITE of more than 64 KiB over a transport that keeps transfer boundaries (USB bulk)
@@ -130,7 +138,7 @@ def body(ctx):
             name = bytes(rng.choice([0, 0x2F, 0xFF, 0xC3, 0x80, 0x41, rng.randrange(256)]) for _ in range(rng.choice([1, 2, 8, 255])))
             ents.append([name.hex(), rng.choice(B32 + [rng.randrange(2 ** 32)]), rng.choice(B32 + [rng.randrange(2 ** 32)]), rng.choice(B32 + [rng.randrange(2 ** 32)])])
         spec = dict(seed=ctx.seed * 17 + j, maxdata=rng.choice([4096, 65536]), rid='random', frag=rng.choice(['whole', 'random', 'empty', 'bytes1'] if n < 50 else ['whole', 'random']),
-                    ops=[dict(api='list', path=rng.choice(['/d%d' % j, '/sdcard/é%d' % j, '/каталог']), path_bytes=rng.random() < 0.3, entries=ents, cuts=rng.choice(['whole', 'random', 'small', 'bytes1'] if n < 50 else ['whole', 'random']))])
+                    ops=[dict(api='list', path=rng.choice(['/d%d' % j, '/sdcard/é%d' % j, '/каталог', '/sdcard/e\u0301%d' % j]), path_bytes=rng.random() < 0.3, entries=ents, cuts=rng.choice(['whole', 'random', 'small', 'bytes1'] if n < 50 else ['whole', 'random']))])
         mode = ('sync', 'async')[j % 2]
         runs.append((mode, spec, scen.run(spec, mode), None))
     judge(ctx, runs, 'stat at every offset, boundary values, random listings', only=('list', 'stat'))
